@@ -15,7 +15,7 @@ package benchfmt
 //@ func (n Name) splitGomaxprocs() (prefix, gomaxprocs []byte)
 //@   props C05
 //@   ensures gomaxprocs == nil ==> prefix === n
-//@   ensures gomaxprocs != nil ==> prefix === n[:len(prefix)] && gomaxprocs === n[len(prefix):]
+//@   ensures gomaxprocs != nil ==> len(prefix) <= len(n) && prefix === n[:len(prefix)] && gomaxprocs === n[len(prefix):]
 //@   ensures gomaxprocs != nil ==> len(gomaxprocs) >= 2 && gomaxprocs[0] == '-'
 //@   ensures gomaxprocs != nil ==> forall j int :: len(prefix) < j < len(n) ==> isdigit(n[j])
 //@   ensures gomaxprocs == nil ==> !(exists k int :: 0 <= k && k+1 < len(n) && n[k] == '-' &&
@@ -27,12 +27,18 @@ package benchfmt
 
 //@ func (n Name) Parts() (baseName []byte, parts [][]byte)
 //@   props C05
-//@   ensures baseName === n[:len(baseName)]
+//@   ensures len(baseName) <= len(n) && baseName === n[:len(baseName)]
 //@   ensures fresh(parts) || len(parts) == 0
 //@   ensures forall k int :: 0 <= k < len(parts) ==> sub(parts[k], n) && len(parts[k]) >= 1
 //@   ensures len(parts) == 0 ==> len(baseName) == len(n)
 //@   ensures len(parts) > 0 ==> off(parts[0]) == end(baseName) && end(parts[len(parts)-1]) == end(n)
 //@   ensures forall k int :: 0 <= k < len(parts)-1 ==> end(parts[k]) == off(parts[k+1])
+//@   ensures forall k int :: 0 <= k < len(parts) ==> parts[k][0] == '/' ||
+//@             (k == len(parts)-1 && parts[k][0] == '-' && len(parts[k]) >= 2 &&
+//@              forall j int :: 1 <= j < len(parts[k]) ==> isdigit(parts[k][j]))
+//@   ensures forall j int :: 0 <= j < len(baseName) ==> n[j] != '/'
+//@   ensures (exists k int :: gomaxprocsAt(n, k)) <==> (len(parts) > 0 && parts[len(parts)-1][0] == '-')
+//@   ensures forall k int, j int :: 0 <= k < len(parts) && 1 <= j < len(parts[k]) ==> parts[k][j] != '/'
 //@   loop 1:
 //@     invariant 0 <= prev <= idx() <= len(buf)
 //@     invariant unchanged()
@@ -41,5 +47,40 @@ package benchfmt
 //@     invariant len(nameParts) > 0 ==> off(nameParts[0]) == off(buf) && end(nameParts[len(nameParts)-1]) == off(buf)+prev
 //@     invariant forall m int :: 0 <= m < len(nameParts) ==> ref(nameParts[m]) == ref(buf) && off(buf) <= off(nameParts[m]) && end(nameParts[m]) <= off(buf)+prev && len(nameParts[m]) >= 0
 //@     invariant forall m int :: 0 <= m < len(nameParts)-1 ==> end(nameParts[m]) == off(nameParts[m+1])
-//@     invariant forall m int :: 1 <= m < len(nameParts) ==> len(nameParts[m]) >= 1
+//@     invariant forall m int :: 1 <= m < len(nameParts) ==> len(nameParts[m]) >= 1 && nameParts[m][0] == '/'
+//@     invariant len(nameParts) > 0 ==> buf[prev] == '/'
+//@     invariant forall j int :: prev < j < idx() ==> buf[j] != '/'
+//@     invariant len(nameParts) == 0 ==> idx() == 0 || buf[0] != '/'
+//@     invariant len(nameParts) > 0 ==> forall j int :: 0 <= j < len(nameParts[0]) ==> buf[j] != '/'
+//@     invariant forall m int, j int :: 1 <= m < len(nameParts) && 1 <= j < len(nameParts[m]) ==> nameParts[m][j] != '/'
 //@     decreases len(buf) - idx()
+
+//@ pure func gomaxprocsAt(n []byte, k int) bool = 0 <= k && k+1 < len(n) && n[k] == '-' &&
+//@              (forall j int :: k < j < len(n) ==> isdigit(n[j]))
+
+//@ func (n Name) Base() (base []byte)
+//@   props C05
+//@   ensures len(base) <= len(n) && base === n[:len(base)]
+//@   ensures forall j int :: 0 <= j < len(base) ==> n[j] != '/'
+//@   ensures len(base) < len(n) ==> n[len(base)] == '/' || gomaxprocsAt(n, len(base))
+//@   ensures len(base) == len(n) ==> !(exists k int :: gomaxprocsAt(n, k))
+
+// verifC05 is the property lemma of C05 for name decomposition: the base name
+// followed by the parts covers the full name without gap or overlap, and Base
+// reports the same base.  It is verified against the contracts of Parts and
+// Base only.
+//
+//@ func verifC05(n Name) (base []byte, parts [][]byte, b2 []byte)
+//@   lemma
+//@   props C05
+//@   ensures b2 === base
+//@   ensures base === n[:len(base)]
+//@   ensures len(parts) == 0 ==> len(base) == len(n)
+//@   ensures len(parts) > 0 ==> off(parts[0]) == end(base) && end(parts[len(parts)-1]) == end(n)
+//@   ensures forall k int :: 0 <= k < len(parts)-1 ==> end(parts[k]) == off(parts[k+1])
+//@   ensures forall k int :: 0 <= k < len(parts) ==> sub(parts[k], n)
+func verifC05(n Name) (base []byte, parts [][]byte, b2 []byte) {
+	base, parts = n.Parts()
+	b2 = n.Base()
+	return
+}
